@@ -14,8 +14,15 @@ struct H {
 impl EndpointHandler<u32> for H {
     fn handle_request(&self, _req: &Request, _arg: &u32) -> Response {
         self.log.lock().unwrap().push(self.id);
-        let mut r = Response::new(Version::Http10, StatusCode::OK);
+        // the handler's own version does not follow the request's: every third handler answers HTTP/1.1, the others 1.0
+        let mut r = Response::new(if self.id % 3 == 0 { Version::Http11 } else { Version::Http10 }, StatusCode::OK);
         r.set_body(Body::new(format!("handler-{}", self.id)));
+        if self.id % 5 == 4 {
+            // … and some set every other field a response has: all of it must survive the router
+            r.set_deprecation();
+            r.allow_method(micro_http::Method::Put);
+            r.set_encoding();
+        }
         if self.id % 2 == 1 {
             // a handler that picks its own content type and server identity: the router must overwrite both
             r.set_content_type(micro_http::MediaType::PlainText);
